@@ -4,6 +4,8 @@
 import Gmars.Model.Load
 import Gmars.Spec.Legal88
 import Gmars.Proofs.LoadOK
+import Gmars.Proofs.LoadU
+import Gmars.Proofs.LoadUAscii
 
 namespace Gmars.Props.C10
 open Gmars
@@ -65,6 +67,38 @@ theorem no_silent_skip {cfg : Config} {text : GoStr.Str} {w : WarriorData}
     (h : parseLoadFile cfg text = .ok (some w)) :
     w.code.size = (Spec.significantInstrLines text).1 :=
   Gmars.no_silent_skip h
+
+/-! ### the same three statements for EVERY byte string
+
+`parseLoadFileU` is the byte-level model: text as `List UInt8`, Go's rune decoding (an invalid
+byte is U+FFFD of width 1), `strings.Fields` / `TrimSpace` with `unicode.IsSpace`,
+`strings.ToLower` (U+0130 and U+212A lower to ASCII), metadata as raw byte slices. It is the
+model the correspondence check runs; `loadU_ascii` relates it to the ASCII model above. -/
+
+/-- `load_no_panic` for every byte string (valid UTF-8 or not) -/
+theorem loadU_no_panic {cfg : Config} (h0 : cfg.coreSize ≠ 0) (text : GoStrU.Bytes) :
+    ∃ r, parseLoadFileU cfg text = .ok r :=
+  Gmars.loadU_no_panic h0 text
+
+/-- `load_ok_wf` for every byte string -/
+theorem loadU_ok_wf {cfg : Config} {text : GoStrU.Bytes} {w : WarriorDataB}
+    (h0 : cfg.coreSize ≠ 0) (h63 : cfg.coreSize.toNat < 2 ^ 63)
+    (h : parseLoadFileU cfg text = .ok (some w)) :
+    ((w.code.size = 0 ∧ w.start = 0) ∨ (0 ≤ w.start ∧ w.start < w.code.size)) ∧
+    (∀ i ∈ w.code.toList, i.a < cfg.coreSize ∧ i.b < cfg.coreSize) ∧
+    (cfg.mode = .icws88 → ∀ i ∈ w.code.toList, Spec.Legal88 i = true) :=
+  Gmars.loadU_ok_wf h0 h63 h
+
+/-- `no_silent_skip` for every byte string -/
+theorem loadU_no_silent_skip {cfg : Config} {text : GoStrU.Bytes} {w : WarriorDataB}
+    (h : parseLoadFileU cfg text = .ok (some w)) :
+    w.code.size = (Spec.significantInstrLinesU text).1 :=
+  Gmars.loadU_no_silent_skip h
+
+/-- on ASCII text the byte-level reader is the ASCII reader -/
+theorem loadU_ascii (cfg : Config) (text : GoStrU.Bytes) (h : ∀ b ∈ text, b < 0x80) :
+    parseLoadFile cfg (embB text) = (parseLoadFileU cfg text).map (Option.map WarriorDataB.toW) :=
+  Gmars.parseLoadFileU_ascii cfg text h
 
 -- non-vacuity: a two-line '88 file is accepted, the comma-only line of F22 is refused
 example : (parseLoadFile { mode := .icws88, coreSize := 8000 } "MOV $ 0, $ 1\nEND 0\n".toList).toOption.join.isSome = true := by decide
